@@ -314,6 +314,14 @@ def meadowsSegments (petnames : List Str) (fpath : Str) : Except String MInfo :=
     | _, _, _ => .error "IndexError"
   | _ => .error "ValueError"
 
+/-! ### Meadows: the json loop with the keep-test the source spells (`mlJsonSame`) -/
+
+/-- `load_rdms_comps_json`: the loop, the test on a later task regenerated from the source -/
+def jsonLoop {α : Type} := jsonLoopBy (α := α) (sameStim mlJsonSame)
+
+def compsJson {α : Type} (info : MInfo) (tasks : Option (List (JTask α))) : Except String (Comps α) :=
+  compsJsonBy (sameStim mlJsonSame) info tasks
+
 /-! ### SPM: regressor names, file relocation -/
 
 def cSpName : Char := Char.ofNat spNameSep
